@@ -195,12 +195,8 @@ theorem shape_survivors (isGen : α → Prop) (isNew : α → Bool) (genome out 
       · simp [hg, this]; omega
       · simp; omega
 
-/-- the rates are probabilities (`random_bool` accepts them) -/
-def ValidCfg (cfg : UmadCfg) : Prop :=
-  F64.validP cfg.add = true ∧ F64.validP cfg.del = true ∧ ∀ r, cfg.emptyAdd = some r → F64.validP r = true
-
 /-- **UMAD on a non-empty parent**: for probabilities in [0,1] never a panic, always the Spec shape. -/
-theorem umad_shape (cfg : UmadCfg) (hv : ValidCfg cfg) (gen : Rand α) (genome : List α)
+theorem umad_shape (cfg : UmadCfg) (hv : UmadCfg.Valid cfg) (gen : Rand α) (genome : List α)
     (hne : genome ≠ []) (r : MRes α) (h : Reach (umad cfg gen genome) r) :
     ∃ out, r = .ok out ∧ Spec.UmadShape (Reach gen) genome out := by
   cases genome with
@@ -213,7 +209,7 @@ theorem umad_shape (cfg : UmadCfg) (hv : ValidCfg cfg) (gen : Rand α) (genome :
 
 /-- **UMAD on an empty parent**: at most one new gene, drawn from the generator; none when
     empty-genome addition is disabled. -/
-theorem umad_empty (cfg : UmadCfg) (hv : ValidCfg cfg) (gen : Rand α) (r : MRes α)
+theorem umad_empty (cfg : UmadCfg) (hv : UmadCfg.Valid cfg) (gen : Rand α) (r : MRes α)
     (h : Reach (umad cfg gen []) r) :
     r = .ok [] ∨ (∃ x, Reach gen x ∧ r = .ok [x] ∧ cfg.emptyAdd ≠ none) := by
   cases he : cfg.emptyAdd with
@@ -285,19 +281,14 @@ theorem umadPass_del1 (add del : UInt64) (hd : F64.certain del = some true) (gen
     subst hx
     simp [ih tail ht]
 
-/-- the expected output for addition 1 / deletion 0: every parent gene followed by one new gene -/
-def interleave : List α → List α → List α
-  | g :: gs, x :: xs => g :: x :: interleave gs xs
-  | _, _ => []
-
 /-- **addition 1, deletion 0: every parent gene is followed by exactly one new gene** -/
 theorem umadPass_add1_del0 (add del : UInt64) (ha : F64.certain add = some true)
     (hd : F64.certain del = some false) (gen : Rand α) (genome out : List α)
     (h : Reach (umadPass add del gen genome) out) :
     ∃ news : List α, news.length = genome.length ∧ (∀ x ∈ news, Reach gen x) ∧
-      out = interleave genome news := by
+      out = Spec.interleave genome news := by
   induction genome generalizing out with
-  | nil => exact ⟨[], rfl, by simp, by simpa [umadPass, interleave] using h⟩
+  | nil => exact ⟨[], rfl, by simp, by simpa [umadPass, Spec.interleave] using h⟩
   | cons g gs ih =>
     obtain ⟨here, tail, hh, ht, rfl⟩ := (reach_umadPass_cons add del gen g gs out).mp h
     obtain ⟨a, d, dn, ra, rd, rdn, hx⟩ := (reach_umadGene add del gen g here).mp hh
@@ -310,20 +301,20 @@ theorem umadPass_add1_del0 (add del : UInt64) (ha : F64.certain add = some true)
     simp only [Bool.not_false, Bool.and_self, if_true] at hx
     obtain ⟨x, hxg, rfl⟩ := hx
     obtain ⟨news, hl, hn, rfl⟩ := ih tail ht
-    refine ⟨x :: news, by simp [hl], ?_, by simp [interleave]⟩
+    refine ⟨x :: news, by simp [hl], ?_, by simp [Spec.interleave]⟩
     intro y hy
     rcases List.mem_cons.mp hy with rfl | hy
     · exact hxg
     · exact hn y hy
 
 /-- the three degenerate configurations at the level of the whole mutator, for a non-empty parent -/
-theorem umad_degenerate (cfg : UmadCfg) (hv : ValidCfg cfg) (gen : Rand α) (genome : List α)
+theorem umad_degenerate (cfg : UmadCfg) (hv : UmadCfg.Valid cfg) (gen : Rand α) (genome : List α)
     (hne : genome ≠ []) (r : MRes α) (h : Reach (umad cfg gen genome) r) :
     (F64.certain cfg.add = some false → F64.certain cfg.del = some false → r = .ok genome) ∧
     (F64.certain cfg.del = some true → r = .ok []) ∧
     (F64.certain cfg.add = some true → F64.certain cfg.del = some false →
       ∃ news : List α, news.length = genome.length ∧ (∀ x ∈ news, Reach gen x) ∧
-        r = .ok (interleave genome news)) := by
+        r = .ok (Spec.interleave genome news)) := by
   cases genome with
   | nil => exact absurd rfl hne
   | cons g gs =>
@@ -343,7 +334,7 @@ theorem umad_degenerate (cfg : UmadCfg) (hv : ValidCfg cfg) (gen : Rand α) (gen
 example : F64.certain 0 = some false ∧ F64.certain 0x3FF0000000000000 = some true ∧
     F64.certain 0x3FE0000000000000 = none := by decide
 
-example : ValidCfg (UmadCfg.new 0x3FE0000000000000 0x3FD0000000000000) := by
+example : UmadCfg.Valid (UmadCfg.new 0x3FE0000000000000 0x3FD0000000000000) := by
   refine ⟨by decide, by decide, ?_⟩
   intro r hr
   simp only [UmadCfg.new, Option.some.injEq] at hr
